@@ -381,3 +381,40 @@ def generate(seed, prof):
         if instances(prog, prof["max_instances"]) <= prof["max_instances"]:
             return prog
     return prog
+
+
+def strip_reads_under_shared(prog):
+    """Remove read statements from all nodes reachable from a shared task."""
+    seen = set()
+    stack = list(prog.get("shared", []))
+    while stack:
+        n = stack.pop()
+        if n in seen:
+            continue
+        seen.add(n)
+        for st in lang.iter_stmts(prog["nodes"][n]["body"]):
+            if st[0] == "yield":
+                for l in lang.iter_leaves(st[1]):
+                    if l[0] == "call":
+                        stack.append(l[2])
+                    elif l[0] == "shared":
+                        stack.append(prog["shared"][l[1]])
+            elif st[0] == "sync":
+                stack.append(st[2])
+
+    def strip(block):
+        out = []
+        for st in block:
+            if st[0] == "read":
+                continue
+            if st[0] == "try":
+                st[1] = strip(st[1])
+                st[3] = strip(st[3])
+            elif st[0] == "with":
+                st[2] = strip(st[2])
+            out.append(st)
+        return out
+
+    for n in seen:
+        prog["nodes"][n]["body"] = strip(prog["nodes"][n]["body"])
+    return len(seen)
